@@ -104,10 +104,15 @@ func c11exec(c *h.Ctx, cs *h.Case) {
 			}
 			mu.Unlock()
 			if gate != nil {
-				<-gate
-				mu.Lock()
-				atGate[k]--
-				mu.Unlock()
+				// `release` hands over one token and takes this handler off the at-the-gate count itself, under the
+				// mutex, before it looks at the state again (the handler doing it after waking up left a window in
+				// which `settle` and `done` still saw it at the gate: FALSE_ALARMS.md, round 7); only when the gate
+				// is closed at the end of the case does the handler count itself out
+				if _, handed := <-gate; !handed {
+					mu.Lock()
+					atGate[k]--
+					mu.Unlock()
+				}
 			}
 		}
 	}
@@ -558,6 +563,9 @@ func c11exec(c *h.Ctx, cs *h.Case) {
 				if at {
 					select {
 					case g <- struct{}{}:
+						mu.Lock()
+						atGate[k]-- // the handler that took the token is no longer at the gate (see OnEnter)
+						mu.Unlock()
 						settle(k) // the reader goes on to the next queued message, if any — or ends
 					case <-time.After(3 * time.Second):
 					}
